@@ -199,7 +199,7 @@ func servicePkg(dir, design, svc string) error {
 		}
 	}
 	fmt.Fprintf(&b, "// Code written by verif/e2/stubgen (verification glue, not goa output).\n\npackage %s\n\nimport (\n", pkg)
-	fmt.Fprintf(&b, "\t\"verif/e2/vreg\"\n")
+	fmt.Fprintf(&b, "\t\"verif/e2/vreg\"\n\t\"reflect\"\n")
 	var inames []string
 	for n := range used {
 		if _, ok := imports[n]; ok {
@@ -217,6 +217,9 @@ func servicePkg(dir, design, svc string) error {
 	fmt.Fprintf(&b, "\t\t\"GoMethods\": %#v,\n", methods)
 	for _, fn := range exportedFuncs(files) {
 		fmt.Fprintf(&b, "\t\t%q: %s,\n", fn, fn)
+	}
+	for _, tn := range exportedTypes(files) {
+		fmt.Fprintf(&b, "\t\t\"type:%s\": reflect.TypeOf((*%s)(nil)).Elem(),\n", tn, tn)
 	}
 	if hasVar(files, "MethodNames") {
 		fmt.Fprintf(&b, "\t\t\"MethodNames\": MethodNames[:],\n")
@@ -240,6 +243,31 @@ func hasVar(files map[string]*ast.File, name string) bool {
 		}
 	}
 	return false
+}
+
+// exportedTypes lists exported non-interface, non-generic named types.
+func exportedTypes(files map[string]*ast.File) []string {
+	var out []string
+	for _, f := range files {
+		for _, d := range f.Decls {
+			gd, ok := d.(*ast.GenDecl)
+			if !ok || gd.Tok != token.TYPE {
+				continue
+			}
+			for _, s := range gd.Specs {
+				ts := s.(*ast.TypeSpec)
+				if !ts.Name.IsExported() || ts.TypeParams != nil {
+					continue
+				}
+				if _, isIface := ts.Type.(*ast.InterfaceType); isIface {
+					continue
+				}
+				out = append(out, ts.Name.Name)
+			}
+		}
+	}
+	sort.Strings(out)
+	return out
 }
 
 // exportedFuncs lists exported, non-generic, receiver-less functions.
